@@ -7,7 +7,7 @@ template<typename T> class HashSet
 {
 public:
   explicit HashSet(usize capacity) {} ~HashSet() {}
-  T& append(const T& key) { nv_closing_append((const void*)key); return *(T*)opaque; }
+  T& append(const T& key) { nv_closing_append((const void*)key); return (T&)key; }
 private:
   char opaque[128];
 };
